@@ -167,9 +167,15 @@ func ConvertSampleToByteStream(sample []byte) []byte {
 	sampleLength := uint32(len(sample))
 	var pos uint32 = 0
 	for pos < sampleLength {
+		if sampleLength-pos < 4 {
+			break // trailing bytes that cannot hold a length field
+		}
 		naluLength := binary.BigEndian.Uint32(sample[pos : pos+4])
 		startCode := []byte{0, 0, 0, 1}
 		copy(sample[pos:pos+4], startCode)
+		if naluLength > sampleLength-pos-4 {
+			break // length field points beyond the sample
+		}
 		pos += naluLength + 4
 	}
 	return sample
